@@ -400,4 +400,150 @@ theorem ElemReads.entity (env : Env F) (hcfg : env.lex.criSkipsComments = true) 
   simp only [cri_at_delim env.lex hcfg _ rest d sk hd]
   simp
 
+/-! ### the other direction: what a read without error says about the element loop -/
+
+/-- a run of the element loop of `STEPaggregate::ReadValue` that reports nothing: `c` is the character looked at last, the
+    stream stands in front of the next element (or behind the `)` when `c = ')'`).  Every element is one call of the
+    element reader that reported nothing worse than INCOMPLETE — the loop hands on BUG, INPUT_ERROR and WARNING only —,
+    after it (blanks and) exactly one `,` or `)` is taken by the loop itself, and the values are stored in order. -/
+inductive LoopRun (env : Env F) (ty : ElemTy) : Byte → IStream → List (Elem F) → IStream → Prop where
+  | close (s : IStream) : LoopRun env ty 41 s [] s
+  | elem {c : Byte} {s s1 s3 sfin : IStream} {e : Sev} {v : Elem F} {c2 : Byte} {vs : List (Elem F)} :
+      s.good = true → c ≠ 41 → elemRead env ty s = .ok (e, v, s1) → ¬ e.toInt < Sev.incomplete.toInt →
+      getInto c s1.ws = (c2, s3) → (c2 = 44 ∨ c2 = 41) → LoopRun env ty c2 s3 vs sfin → LoopRun env ty c s (v :: vs) sfin
+
+theorem greater_toInt_le (a b : Sev) : (a.greater b).toInt ≤ a.toInt := by
+  unfold Sev.greater; split <;> omega
+
+theorem greater_toInt_le' (a b : Sev) : (a.greater b).toInt ≤ b.toInt := by
+  unfold Sev.greater; split <;> omega
+
+theorem noErr_iff (e : Sev) : NoErr e ↔ 2 ≤ e.toInt := by
+  cases e <;> simp [NoErr, Sev.toInt]
+
+/-- the loop only ever makes the severity worse -/
+theorem aggrLoop_mono (env : Env F) (ty : ElemTy) :
+    ∀ (fuel : Nat) (err : Sev) (acc : List (Elem F)) (c : Byte) (s : IStream) (sev : Sev) (o : Option (List (Elem F))) (sf : IStream),
+      aggrLoop env ty fuel err acc c s = .ok (sev, o, sf) → sev.toInt ≤ err.toInt := by
+  intro fuel
+  induction fuel with
+  | zero => intro err acc c s sev o sf h; simp [aggrLoop, throw, throwThe, MonadExceptOf.throw] at h
+  | succ n ih =>
+    intro err acc c s sev o sf h
+    unfold aggrLoop at h
+    by_cases hg : (s.good && c != 41) = true
+    · simp only [hg, if_true, bind, Except.bind] at h
+      cases her : elemRead env ty s with
+      | error x => rw [her] at h; cases h
+      | ok r =>
+        obtain ⟨e, v, s1⟩ := r
+        rw [her] at h
+        simp only at h
+        by_cases hd : ((getInto c s1.ws).1 != 44 && (getInto c s1.ws).1 != 41) = true
+        · simp only [hd, if_true, pure, Except.pure, Except.ok.injEq, Prod.mk.injEq] at h
+          rw [← h.1]
+          have h1 := greater_toInt_le (if e.toInt < Sev.incomplete.toInt then err.greater e else err) Sev.inputError
+          have h2 : (if e.toInt < Sev.incomplete.toInt then err.greater e else err).toInt ≤ err.toInt := by
+            split
+            · exact greater_toInt_le err e
+            · exact Int.le_refl _
+          omega
+        · simp only [hd, Bool.false_eq_true, if_false] at h
+          have := ih _ _ _ _ _ _ _ h
+          have h2 : (if e.toInt < Sev.incomplete.toInt then err.greater e else err).toInt ≤ err.toInt := by
+            split
+            · exact greater_toInt_le err e
+            · exact Int.le_refl _
+          omega
+    · simp only [hg, Bool.false_eq_true, if_false] at h
+      by_cases h41 : (c == 41) = true
+      · simp only [h41, if_true, pure, Except.pure, Except.ok.injEq, Prod.mk.injEq] at h
+        rw [← h.1]; exact Int.le_refl _
+      · simp only [h41, Bool.false_eq_true, if_false, pure, Except.pure, Except.ok.injEq, Prod.mk.injEq] at h
+        rw [← h.1]; exact greater_toInt_le err Sev.inputError
+
+/-- the element loop, no error ⇒ a `LoopRun`: nothing is dropped from or added to the stored list, and the severity handed
+    in comes out unchanged -/
+theorem aggrLoop_sound (env : Env F) (ty : ElemTy) :
+    ∀ (fuel : Nat) (err : Sev) (acc : List (Elem F)) (c : Byte) (s : IStream) (sev : Sev) (es : List (Elem F)) (sf : IStream),
+      aggrLoop env ty fuel err acc c s = .ok (sev, some es, sf) → NoErr sev →
+      ∃ vs, es = acc ++ vs ∧ LoopRun env ty c s vs sf ∧ sev = err := by
+  intro fuel
+  induction fuel with
+  | zero => intro err acc c s sev es sf h; simp [aggrLoop, throw, throwThe, MonadExceptOf.throw] at h
+  | succ n ih =>
+    intro err acc c s sev es sf h hne
+    have hne2 := (noErr_iff sev).mp hne
+    have hmono := aggrLoop_mono env ty (n + 1) err acc c s sev (some es) sf h
+    unfold aggrLoop at h
+    by_cases hg : (s.good && c != 41) = true
+    · have hgood : s.good = true := by simp at hg; exact hg.1
+      have hc41 : c ≠ 41 := by simp at hg; exact hg.2
+      simp only [hg, if_true, bind, Except.bind] at h
+      cases her : elemRead env ty s with
+      | error x => rw [her] at h; cases h
+      | ok r =>
+        obtain ⟨e, v, s1⟩ := r
+        rw [her] at h
+        simp only at h
+        by_cases hd : ((getInto c s1.ws).1 != 44 && (getInto c s1.ws).1 != 41) = true
+        · exfalso
+          simp only [hd, if_true, pure, Except.pure, Except.ok.injEq, Prod.mk.injEq] at h
+          have hh : sev.toInt ≤ Sev.inputError.toInt := by rw [← h.1]; exact greater_toInt_le' _ _
+          have : Sev.inputError.toInt = -1 := rfl
+          omega
+        · simp only [hd, Bool.false_eq_true, if_false] at h
+          have hdel : (getInto c s1.ws).1 = 44 ∨ (getInto c s1.ws).1 = 41 := by
+            simp at hd
+            by_cases h44 : (getInto c s1.ws).1 = 44
+            · exact Or.inl h44
+            · exact Or.inr (hd h44)
+          have he : ¬ e.toInt < Sev.incomplete.toInt := by
+            intro hlt
+            have hm := aggrLoop_mono env ty n _ _ _ _ _ _ _ h
+            simp only [hlt, if_true] at hm
+            have := greater_toInt_le' err e
+            have : Sev.incomplete.toInt = 1 := rfl
+            omega
+          simp only [he, if_false] at h
+          obtain ⟨vs, h1, h2, h3⟩ := ih _ _ _ _ _ _ _ h hne
+          exact ⟨v :: vs, by rw [h1]; simp, LoopRun.elem hgood hc41 her he rfl hdel h2, h3⟩
+    · simp only [hg, Bool.false_eq_true, if_false] at h
+      by_cases h41 : (c == 41) = true
+      · simp only [h41, if_true, pure, Except.pure, Except.ok.injEq, Prod.mk.injEq, Option.some.injEq] at h
+        have hc : c = 41 := by simpa using h41
+        subst hc
+        obtain ⟨h1, h2, h3⟩ := h
+        subst h1 h2 h3
+        exact ⟨[], by simp, LoopRun.close _, rfl⟩
+      · exfalso
+        simp only [h41, Bool.false_eq_true, if_false, pure, Except.pure, Except.ok.injEq, Prod.mk.injEq] at h
+        have hh : sev.toInt ≤ Sev.inputError.toInt := by rw [← h.1]; exact greater_toInt_le' _ _
+        have : Sev.inputError.toInt = -1 := rfl
+        omega
+
+/-- `STEPaggregate::ReadValue`, no error ⇒ the input starts (after blanks) with `(`; behind it and the token separators
+    either the `)` of the empty aggregate stands, or a `LoopRun` follows that ends behind the closing `)`; the stored list is
+    exactly the list of values the element reader returned, in order -/
+theorem aggrRead_sound (env : Env F) (ty : ElemTy) (s : IStream) (sev : Sev) (es : List (Elem F)) (sf : IStream)
+    (h : aggrRead env ty s = .ok (sev, some es, sf)) (hne : NoErr sev) :
+    sev = .null ∧ s.ws.peekC.1 = 40 ∧
+    ∃ c3 s6, LoopRun env ty c3 s6 es sf ∧
+      (let s4 := if env.cfg.aggrSkipsComments then readTokenSeparator (getInto 40 s.ws.peekC.2).2 else (getInto 40 s.ws.peekC.2).2.ws
+       (c3, s6) = (if s4.peekC.1 == 41 then getInto s4.peekC.1 s4.peekC.2 else (s4.peekC.1, s4.peekC.2))) := by
+  unfold aggrRead at h
+  simp only [bind, Except.bind, pure, Except.pure] at h
+  by_cases h1 : (s.ws.peekC.2.eof || s.ws.peekC.1 == 36) = true
+  · simp [h1] at h
+  · simp only [h1, Bool.false_eq_true, if_false] at h
+    by_cases h2 : (s.ws.peekC.1 != 40) = true
+    · simp [h2] at h
+    · simp only [h2, Bool.false_eq_true, if_false] at h
+      have hc : s.ws.peekC.1 = 40 := by simpa using h2
+      rw [hc] at h
+      obtain ⟨vs, hv, hrun, hsev⟩ := aggrLoop_sound env ty _ _ _ _ _ _ _ _ h hne
+      have hv' : es = vs := by simpa using hv
+      subst hv'
+      exact ⟨hsev, hc, _, _, hrun, rfl⟩
+
 end StepModel.P21.AggrLemmas
